@@ -663,9 +663,50 @@ def r11(ctx, facts):
                    % ({0: "`rejected`", 1: "`accepted`", None: "unknown"}[bad[0]] if bad else ""), c.span)
 
 
+def r12(ctx, facts):
+    """the policy the builder hands out permits failover exactly if the user said so. Whether failover is POSSIBLE is decided per
+    request against the effective preference (R6) - `no policy-level preference` means `inherit the session's`, which is only
+    known then. A builder that folds the preference into the flag switches failover off for every policy that inherits its
+    datacenter (seed C05-l)."""
+    from ..util import field_slice
+    r = ctx.rule("R12", "DefaultPolicyBuilder::build copies permit_dc_failover (and the other switches) from the builder, unconditioned", floor=1)
+    n = 0
+    for b in facts.bodies.mentioning('"permit_dc_failover"'):
+        if b.crate != "scylla" or "::promoted[" in b.path or "::test" in b.path:
+            continue
+        for bb in sorted(b.live_blocks):
+            for st in b.stmts(bb):
+                if not (st[0] == "A" and st[2][0] == "agg" and st[2][1][0] == "adt" and st[2][1][1] == DP and "permit_dc_failover" in (st[2][1][4] or [])):
+                    continue
+                n += 1
+                op = st[2][2][st[2][1][4].index("permit_dc_failover")]
+                if op[0] == "k":
+                    r.instance("failover-flag-is-the-users:" + fn_short(b.path), True, "constant (a default)", b.stmt_span(st), nontrivial=False)
+                    continue
+                seen, calls, bins = field_slice(b, op)
+                fields = set()
+                multi = False
+                for l, _ in seen:
+                    ds = b.defs.get(l, [])
+                    if len(ds) > 1:
+                        multi = True
+                    for d in ds:
+                        if d[0] == "stmt" and d[3][0] == "use" and d[3][1][0] in ("c", "m"):
+                            for e in d[3][1][1][1]:
+                                if isinstance(e, list) and e[0] == "f" and e[2]:
+                                    fields.add(e[2])
+                ok = not calls and not bins and not multi and fields <= {"permit_dc_failover"}
+                r.instance("failover-flag-is-the-users:" + fn_short(b.path), ok,
+                           "the policy's permit_dc_failover is computed from %s instead of being the builder's flag: whether failover is possible depends on the preference "
+                           "in force for the REQUEST (inherited from the session when the policy has none), which is not known when the policy is built"
+                           % (sorted(fields - {"permit_dc_failover"}) or sorted({(c.name or c.decl or "?").split("::")[-1] for c in calls}) or "several definitions"), b.stmt_span(st))
+    if n == 0:
+        raise AnchorLost("no DefaultPolicy construction with a permit_dc_failover field found")
+
+
 def check(ctx):
     facts = inline_view(ctx.facts("default"))
-    for fn in (r1, r2, r3, r4, r5, r6, r7, r8, r9, r10, r11):
+    for fn in (r1, r2, r3, r4, r5, r6, r7, r8, r9, r10, r11, r12):
         try:
             fn(ctx, facts)
         except AnchorLost as ex:
